@@ -11,10 +11,12 @@
 #![allow(clippy::needless_range_loop)]
 #![allow(dead_code)]
 #![recursion_limit = "1024"]
+#![cfg_attr(kani, feature(allocator_api))]
 
 pub mod models;
 pub mod nd;
 pub mod refs;
+pub mod vecstub;
 
 /// Declare one harness instance. `$stubs` is `none`, `sse2` or `avx2` and selects
 /// the set of intrinsic models substituted with `#[kani::stub]`.
@@ -24,6 +26,16 @@ macro_rules! harness {
         #[cfg_attr(kani, kani::proof)]
         #[cfg_attr(kani, kani::unwind($unwind))]
         #[cfg_attr(kani, kani::stub(alloc::fmt::format, $crate::refs::fmt_format_stub))]
+        pub fn $name() {
+            $body
+        }
+    };
+    (vec, $unwind:literal, $name:ident, $body:expr) => {
+        #[cfg_attr(kani, kani::proof)]
+        #[cfg_attr(kani, kani::unwind($unwind))]
+        #[cfg_attr(kani, kani::stub(alloc::fmt::format, $crate::refs::fmt_format_stub))]
+        #[cfg_attr(kani, kani::stub(alloc::vec::Vec::new, $crate::vecstub::vec_new))]
+        #[cfg_attr(kani, kani::stub(alloc::vec::Vec::push, $crate::vecstub::vec_push))]
         pub fn $name() {
             $body
         }
@@ -43,9 +55,40 @@ macro_rules! harness {
         }
     };
     (avx2, $unwind:literal, $name:ident, $body:expr) => {
+        $crate::harness_x86!([], $unwind, $name, $body);
+    };
+    (avx2vec8, $unwind:literal, $name:ident, $body:expr) => {
+        $crate::harness_x86!(
+            [
+                kani::stub(alloc::vec::Vec::new, $crate::vecstub::vec_new8),
+                kani::stub(alloc::vec::Vec::push, $crate::vecstub::vec_push)
+            ],
+            $unwind,
+            $name,
+            $body
+        );
+    };
+    (avx2vec, $unwind:literal, $name:ident, $body:expr) => {
+        $crate::harness_x86!(
+            [
+                kani::stub(alloc::vec::Vec::new, $crate::vecstub::vec_new),
+                kani::stub(alloc::vec::Vec::push, $crate::vecstub::vec_push)
+            ],
+            $unwind,
+            $name,
+            $body
+        );
+    };
+}
+
+/// Internal: the AVX2 (+SSE2) intrinsic stub set plus optional extra attributes.
+#[macro_export]
+macro_rules! harness_x86 {
+    ([$($extra:meta),*], $unwind:literal, $name:ident, $body:expr) => {
         #[cfg_attr(kani, kani::proof)]
         #[cfg_attr(kani, kani::unwind($unwind))]
         #[cfg_attr(kani, kani::stub(alloc::fmt::format, $crate::refs::fmt_format_stub))]
+        $(#[cfg_attr(kani, $extra)])*
         #[cfg_attr(kani, kani::stub(core::arch::x86_64::_mm256_shuffle_epi8, $crate::models::mm256_shuffle_epi8))]
         #[cfg_attr(kani, kani::stub(core::arch::x86_64::_mm256_blendv_epi8, $crate::models::mm256_blendv_epi8))]
         #[cfg_attr(kani, kani::stub(core::arch::x86_64::_mm256_max_epu8, $crate::models::mm256_max_epu8))]
@@ -65,8 +108,6 @@ macro_rules! harness {
         #[cfg_attr(kani, kani::stub(core::arch::x86_64::_mm256_stream_ps, $crate::models::mm256_stream_ps))]
         #[cfg_attr(kani, kani::stub(core::arch::x86_64::_mm256_stream_si256, $crate::models::mm256_stream_si256))]
         #[cfg_attr(kani, kani::stub(core::arch::x86_64::_mm_sfence, $crate::models::mm_sfence))]
-        // the generic arm of the dispatcher and the SSE2 arm are reachable from the
-        // same entry points, so the SSE2 models ride along
         #[cfg_attr(kani, kani::stub(core::arch::x86_64::_mm_add_ps, $crate::models::mm_add_ps))]
         #[cfg_attr(kani, kani::stub(core::arch::x86_64::_mm_cmple_ps, $crate::models::mm_cmple_ps))]
         #[cfg_attr(kani, kani::stub(core::arch::x86_64::_mm_load_ps, $crate::models::mm_load_ps))]
@@ -77,7 +118,15 @@ macro_rules! harness {
     };
 }
 
+pub mod c01_score;
+pub mod c02_scanner;
+pub mod c04_stripe;
 pub mod c05_encode;
+pub mod c07_max;
+pub mod c08_discrete;
+pub mod c09_convert;
+pub mod c10_revcomp;
+pub mod c19_dense;
 
 #[cfg(not(kani))]
 pub mod replay_table;
